@@ -142,6 +142,11 @@ class OperationGroup(ContextMixin, ContentMixin):
 
         if counter is not None:
             self.context.set_counter(counter - 1)  # which is supposedly the current state (head)
+            counter_offset = 0
+        elif kwargs.get('ignore_pending'):
+            counter_offset = 0  # autofill simulates with the head counter and shifts the counters afterwards
+        else:
+            counter_offset = self.context.get_counter_offset()  # operations of this account pending in the mempool
 
         if gas_limit is None:
             hard_gas_limit_per_content = int(constants['hard_gas_limit_per_operation']) // len(self.contents)
@@ -157,7 +162,7 @@ class OperationGroup(ContextMixin, ContentMixin):
             'pkh': source,
             'source': source,
             'delegate': source,  # self registration
-            'counter': lambda i, x: str(self.context.get_counter()),
+            'counter': lambda i, x: str(self.context.get_counter() + counter_offset),
             'secret': lambda i, x: self.key.activation_code,
             'period': lambda i, x: str(self.shell.head.voting_period()),
             'public_key': lambda i, x: self.key.public_key(),
@@ -266,7 +271,7 @@ class OperationGroup(ContextMixin, ContentMixin):
             logger.warning('`branch_offset` argument is deprecated, use `ttl` instead')
             ttl = MAX_OPERATIONS_TTL - kwargs['branch_offset']
 
-        opg = self.fill(counter=counter, ttl=ttl)
+        opg = self.fill(counter=counter, ttl=ttl, ignore_pending=True)
         opg_with_metadata = opg.run()
         if not OperationResult.is_applied(opg_with_metadata):
             raise RpcError.from_errors(OperationResult.errors(opg_with_metadata))
